@@ -1,6 +1,7 @@
 import SkyllhModel.Proto
 import SkyllhModel.Model.Cache
-open Proto Cache
+import SkyllhModel.Model.CacheTop
+open Proto Cache CacheTop
 
 /-- The scalar the model is executed with: an IEEE double identified with its **bit pattern**.
 Equality (`DecidableEq`, hence the `==` of grid keys and of the exact hit test) is equality of bit
@@ -24,6 +25,21 @@ instance : LE BF := ⟨fun a b => a.v ≤ b.v⟩
 instance : DecidableLT BF := fun a b => inferInstanceAs (Decidable (a.v < b.v))
 instance : DecidableLE BF := fun a b => inferInstanceAs (Decidable (a.v ≤ b.v))
 instance : OfScientific BF := ⟨fun m s e => of (OfScientific.ofScientific m s e)⟩
+instance : Neg BF := ⟨fun a => of (-a.v)⟩
+instance : OfNat BF 0 := ⟨of 0.0⟩
+instance : OfNat BF 1 := ⟨of 1.0⟩
+instance : Transc BF where
+  log a := of (Float.log a.v)
+  log1p a := of (FloatImpl.log1p a.v)
+  exp a := of (Float.exp a.v)
+  sqrt a := of (Float.sqrt a.v)
+  sin a := of (Float.sin a.v)
+  cos a := of (Float.cos a.v)
+  asin a := of (Float.asin a.v)
+  acos a := of (Float.acos a.v)
+  pi := of 3.141592653589793
+  ofN n := of (Float.ofNat n)
+  ofI i := of (Float.ofInt i)
 end BF
 
 def pBF (s : String) : BF := ⟨s.toNat!.toUInt64⟩
@@ -146,6 +162,39 @@ def fieldTrace (f : Nat → Nat → UInt64 → List Float) (reset : Bool) :
       | some v => s!"{fB (!hit)}:{fListD fF v}"
       | none => "U") :: fieldTrace f reset r.1 ops
 
+/-  third request kind: the upper layers (Model/CacheTop.lean), operations = the real calls
+      top <variant> <cfg> <man> <bkg> <up> <lo> <dx> <grid> <nev d:N;…> <ak s:x1,x2,…:a1,a2,…;…> <opa> <d0> <s0> <ops>
+    ops     ;-separated  T<d> (tdm.initialize_trial) | L (initialize_for_new_trial cascade) | C<s> (change_shg_mgr)
+                         | E<ns>|<xs>|<keys> | G<ns> (calculate_ns_grad2)
+    answer  ;-separated  U | V:<llh>:<dllh/dns>:<ratio blocks>:<grad blocks> | XERR | G:<number> | REF              -/
+def nevTab (s : String) : List (Nat × Nat) :=
+  (entries s).filterMap fun
+    | [d, n] => some (pN d, pN n)
+    | _ => none
+
+def akTab (s : String) : List ((Nat × List BF) × List BF) :=
+  (entries s).filterMap fun
+    | [sr, xs, as] => some ((pN sr, pList pBF xs), pList pBF as)
+    | _ => none
+
+def pTOp (s : String) : Option (TOp Nat Nat BF) :=
+  if s.startsWith "T" then some (.tdmInit (pN (s.drop 1).toString))
+  else if s == "L" then some .llhInit
+  else if s.startsWith "C" then some (.changeShg (pN (s.drop 1).toString))
+  else if s.startsWith "E" then
+    match ((s.drop 1).toString).splitOn "|" with
+    | [ns, xs, ks] => some (.evaluate ⟨pBF ns, pList pBF xs, pList pBF ks⟩)
+    | _ => none
+  else if s.startsWith "G" then some (.grad2 (pBF (s.drop 1).toString))
+  else none
+
+def fTRes : TRes BF → String
+  | .unit => "U"
+  | .vals o => s!"V:{fBF o.llh}:{fBF o.gradNs}:{fBlocks o.out.ratio}:{fBlocks o.out.grad}"
+  | .evalError => "XERR"
+  | .grad2 x => s!"G:{fBF x}"
+  | .refused => "REF"
+
 def answer (line : String) : String :=
   match tokens line with
   | ["hist", v, c, man, bkg, up, lo, dx, grid, d0, s0, ops] =>
@@ -156,6 +205,17 @@ def answer (line : String) : String :=
     | some ops =>
       let r := run W v (hitOf v cfg) cfg (fresh (pN d0) (pN s0)) ops
       String.intercalate ";" (List.zipWith (· ++ ·) (r.2.map fRes) ((pureTrace W cfg.parabola (pN d0) (pN s0) ops).map fPure))
+    | none => "bad-ops"
+  | ["top", v, c, man, bkg, up, lo, dx, grid, nev, ak, opa, d0, s0, ops] =>
+    let v := pVariant v
+    let cfg := pCfg c
+    let nt := nevTab nev
+    let at_ := akTab ak
+    let T : Top Nat Nat BF :=
+      { W := mkWorld man bkg up lo dx grid, nEvents := fun d => (nt.lookup d).getD 0,
+        ak := fun s q => (at_.lookup (s, q.x)).getD [], opa := pBF opa }
+    match (if ops == "-" then some [] else (ops.splitOn ";").mapM pTOp) with
+    | some ops => String.intercalate ";" ((trun T v (hitOf v cfg) cfg (tfresh (pN d0) (pN s0)) ops).2.map fTRes)
     | none => "bad-ops"
   | ["field", reset, tab, d0, s0, ops] =>
     let t := fTab tab
